@@ -11,6 +11,7 @@ from common import Report, log
 
 
 def main():
+    sys.setrecursionlimit(20000)
     args = sys.argv[1:]
     if not args:
         print("usage: check <Cxx> [quick|thorough] [--replay file]")
